@@ -281,7 +281,14 @@ class World:
             if not user:
                 return
             tgt = user[op[1] % len(user)]
-            if len(op) > 3 and op[3]:
+            if len(op) > 3 and op[3] == 2:
+                # take over the label of another component (stored, derived or a pixel / world attribute): names may clash
+                others = [c for c in d.components if c is not tgt]
+                if not others:
+                    return
+                tgt.label = others[(op[1] // 2 + int(op[2])) % len(others)].label
+                self.kinds.add("rename:to-existing-label")
+            elif len(op) > 3 and op[3]:
                 # labels are free: a number is accepted and stored as its text - assigning it again is not a rename
                 tgt.label = (7 if op[2] else 2.5)
                 self.kinds.add("rename:non-string")
@@ -341,6 +348,10 @@ class World:
                 other.add_component(np.zeros(shape2), "fresh%d" % self.counter)
             if op[4] == 1:
                 other.coords = gen.build_coords({"kind": "identity"}, len(shape2))
+            if len(set(c.label for c in other.components)) != len(other.components):
+                # a stored component named like one of the new dataset's own coordinate attributes: documented loud rejection
+                self.must_raise(lambda: d.update_values_from_data(other), ValueError, "update_values_from_data(non-unique labels in new data)", before)
+                return
             try:
                 d.update_values_from_data(other)
             except Exception as e:  # noqa
@@ -404,7 +415,7 @@ op = st.one_of(
     st.tuples(st.just("add"), st.sampled_from(["str", "dup", "cid", "existing", "derived", "wrongshape", "str", "derived"]), idx),
     st.tuples(st.just("remove"), idx),
     st.tuples(st.just("reorder"), st.sampled_from(["valid", "valid", "invalid"]), idx, idx),
-    st.tuples(st.just("rename"), idx, st.booleans(), st.sampled_from([False, False, True])),
+    st.tuples(st.just("rename"), idx, st.booleans(), st.sampled_from([False, False, True, 2, 2])),
     st.tuples(st.just("update_id"), idx, st.sampled_from([0, 0, 1])),
     st.tuples(st.just("update_components"), idx, st.booleans()),
     st.tuples(st.just("refresh"), st.integers(0, 2), st.booleans(), st.integers(0, 3), st.integers(0, 1)),
@@ -418,6 +429,19 @@ cases = st.fixed_dictionaries({"shape": gen.shapes(1, 3, 3, 1), "coords": st.sam
                                "ops": st.lists(op, min_size=2, max_size=25)})
 
 
+def ambiguity_cases(tier):
+    """short fixed histories that give two stored components the label of a derived / pixel / world component"""
+    for coords in ("none", "identity"):
+        for mode in ("bare", "collection"):
+            base = [["add", "str", 0], ["add", "str", 1], ["add", "derived", 0]]
+            for i, j in ((0, 1), (1, 0), (0, 2), (2, 0), (1, 2)):
+                for a in range(4):
+                    for b in range(4):
+                        yield {"coords": coords, "mode": mode, "shape": [3], "ops": base + [["rename", i, bool(a % 2), 2], ["rename", j, bool(b % 2), 2],
+                                                                                              ["rename", i + a, bool(b // 2), 2], ["rename", j + b, bool(a // 2), 2]]}
+
+
 def checks(tier):
     n = {"quick": 4000, "thorough": 40000}.get(tier, 10)
-    return [Check("data_histories", fn_history, strategy=cases, examples=n)]
+    return [Check("data_histories", fn_history, strategy=cases, examples=n),
+            Check("label_clash_histories", fn_history, enum=ambiguity_cases)]
